@@ -7,6 +7,7 @@ import MosnVerif.Lemmas.TransferLookup
 import MosnVerif.Lemmas.UpgTiming
 import MosnVerif.Lemmas.UpgHandshake
 import MosnVerif.Lemmas.HandoverQueue
+import MosnVerif.Lemmas.HandoverStream
 import MosnVerif.Lemmas.H1Drain
 import MosnVerif.Lemmas.H2GoAwaySend
 import MosnVerif.Lemmas.TlsHandover
@@ -663,6 +664,98 @@ example : (run .dropWhenFull 8 { pending := List.range 9 } (harnessWindow 9 ++ h
     ∧ (run .dropWhenFull 8 { pending := List.range 9 } (harnessWindow 9 ++ harnessRest 9)).forwarded = List.range 8 := by decide
 
 end HandoverQueueProps
+
+/-! ## hot upgrade: a write IN PROGRESS when the connection is handed over (c11w9; `Model/HandoverStream.lean`) -/
+section HandoverStreamProps
+open MosnVerif.Model.HandoverStream MosnVerif.Gen.HandoverLock
+
+/-- the step lists the proofs are about are the regenerated ones: `notifyTransfer` takes the mutex `writeDirectly`
+holds from before its mark test until after `doWrite` -/
+theorem handover_steps_regenerated : writeSteps = realW ∧ handoverSteps = realH ∧ sameMutex = true := by decide
+
+/-- **handover_stream_intact**: for EVERY list of writes of the old process (each any number `k` of partial writes),
+EVERY list of writes of the new process and EVERY schedule of the old writer, the hand-over thread and the new
+process's writer - with the step order of `writeDirectly`, of `notifyTransfer` and of `connection.transfer` regenerated -
+the socket's chunk sequence is intact: every write is contiguous (its chunks adjacent and in order, the next write
+begins only after the previous one is complete: no interleaving of two writes) and no chunk of the old process follows
+a chunk of the new process. -/
+theorem handover_stream_intact (ws news : List Wr) (sched : List MosnVerif.Model.HandoverStream.Ev) :
+    intactR (runG ws news sched).rsock = true := by
+  have h := inv_run sched (init ws news) (inv_init ws news)
+  unfold runG
+  rw [handover_steps_regenerated.1, handover_steps_regenerated.2.1]
+  simp only [intactR, Bool.and_eq_true]
+  exact ⟨h.Wl, h.Q⟩
+
+/-- in words of the two processes: the stream is the old process's chunks followed by the new process's (`rsock` is
+newest first) -/
+theorem handover_old_before_new (ws news : List Wr) (sched : List MosnVerif.Model.HandoverStream.Ev) :
+    ∃ a b, (runG ws news sched).rsock = a ++ b ∧ (∀ e ∈ a, e.side = .new) ∧ (∀ e ∈ b, e.side = .old) := by
+  have h := handover_stream_intact ws news sched
+  simp only [intactR, Bool.and_eq_true] at h
+  exact sortedR_split _ h.2
+
+/-- **handover_waits_for_write**: when the descriptor has left for the new process, no write of the old process is
+between its mark test and the end of its `doWrite` (the hand-over queued behind the write in progress), and none ever
+will be: the mark is set. -/
+theorem handover_waits_for_write (ws news : List Wr) (sched : List MosnVerif.Model.HandoverStream.Ev)
+    (hfd : (runG ws news sched).fdSent = true) :
+    (runG ws news sched).mark = true ∧ (runG ws news sched).oidx = 0
+      ∧ ∀ w, (runG ws news sched).ocur = some w → ¬ ((runG ws news sched).opc = 2 ∨ (runG ws news sched).opc = 3) := by
+  have h := inv_run sched (init ws news) (inv_init ws news)
+  unfold runG at hfd ⊢
+  rw [handover_steps_regenerated.1, handover_steps_regenerated.2.1] at hfd ⊢
+  have hm := h.F hfd
+  refine ⟨hm, ?_, h.J hm⟩
+  rcases Nat.eq_zero_or_pos (run realW realH (init ws news) sched).oidx with h0 | hpos
+  · exact h0
+  · obtain ⟨w, hw, h3, _⟩ := h.O0 hpos
+    exact absurd (Or.inr h3) (h.J hm w hw)
+
+/-- **handover_writes_split** (composition with `handover_writes_preserved`): for every schedule the old writer's
+sequence is, in order: the writes that went to the socket directly, the diverted ones - of which, for every schedule
+of the forwarding loop, what was forwarded, what is queued and what is not yet enqueued is again the sequence, nothing
+dropped -, the write not yet at its mark test, and the writes not yet begun. -/
+theorem handover_writes_split (ws news : List Wr) (sched : List MosnVerif.Model.HandoverStream.Ev)
+    (qsched : List MosnVerif.Model.HandoverQueue.Ev) :
+    let s := runG ws news sched
+    let q := MosnVerif.Model.HandoverQueue.runG s.diverted qsched
+    s.direct ++ ((q.forwarded ++ q.queue ++ q.pending) ++ (unclassified s ++ s.opend)) = ws ∧ q.dropped = [] := by
+  intro s q
+  have h := acc_run ws sched (init ws news) (acc_init ws news)
+  have hq := handover_writes_preserved s.diverted qsched
+  refine ⟨?_, hq.2⟩
+  have hs : s = run realW realH (init ws news) sched := by
+    show runG ws news sched = _
+    unfold runG
+    rw [handover_steps_regenerated.1, handover_steps_regenerated.2.1]
+  show s.direct ++ (((MosnVerif.Model.HandoverQueue.runG s.diverted qsched).forwarded ++ (MosnVerif.Model.HandoverQueue.runG s.diverted qsched).queue ++ (MosnVerif.Model.HandoverQueue.runG s.diverted qsched).pending) ++ (unclassified s ++ s.opend)) = ws
+  rw [hq.1, hs]
+  exact h.P
+
+/-- the harness's schedule: write 1 (4 partial writes) blocked after 2 of them, the hand-over tries, the client reads -/
+def hwlSched : List MosnVerif.Model.HandoverStream.Ev :=
+  List.replicate 6 .o ++ List.replicate 4 .h ++ [.n, .n] ++ List.replicate 4 .o ++ List.replicate 4 .h ++ [.n, .n] ++ List.replicate 12 .o
+
+/-- non-vacuous: on that schedule the hand-over waits, write 1 is completed, then the new process's frame, and the two
+later writes of the old process are diverted -/
+example : (runG [⟨1, 4⟩, ⟨3, 1⟩, ⟨4, 1⟩] [⟨2, 1⟩] hwlSched).rsock.reverse
+      = [⟨.old, 1, 0, 4⟩, ⟨.old, 1, 1, 4⟩, ⟨.old, 1, 2, 4⟩, ⟨.old, 1, 3, 4⟩, ⟨.new, 2, 0, 1⟩]
+    ∧ (runG [⟨1, 4⟩, ⟨3, 1⟩, ⟨4, 1⟩] [⟨2, 1⟩] hwlSched).diverted = [⟨3, 1⟩, ⟨4, 1⟩]
+    ∧ (runG [⟨1, 4⟩, ⟨3, 1⟩, ⟨4, 1⟩] [⟨2, 1⟩] (hwlSched.take 10)).fdSent = false
+    ∧ (runG [⟨1, 4⟩, ⟨3, 1⟩, ⟨4, 1⟩] [⟨2, 1⟩] hwlSched).fdSent = true := by decide
+
+/-- negation witness, mark without the lock (`notifyTransfer` = a plain store): the descriptor leaves while write 1 is
+inside `doWrite`, the new process's frame lands between its chunks -/
+example : (run realW [.setMark, .sendFd] (init [⟨1, 4⟩] [⟨2, 1⟩]) hwlSched).rsock.reverse
+      = [⟨.old, 1, 0, 4⟩, ⟨.old, 1, 1, 4⟩, ⟨.new, 2, 0, 1⟩, ⟨.old, 1, 2, 4⟩, ⟨.old, 1, 3, 4⟩]
+    ∧ intactR (run realW [.setMark, .sendFd] (init [⟨1, 4⟩] [⟨2, 1⟩]) hwlSched).rsock = false
+    ∧ (run realW [.setMark, .sendFd] (init [⟨1, 4⟩] [⟨2, 1⟩]) (hwlSched.take 10)).fdSent = true := by decide
+
+/-- negation witness, `writeDirectly` releasing the mutex between appendBuffer and doWrite: the same -/
+example : intactR (run [.lock, .check, .append, .unlock, .io] realH (init [⟨1, 4⟩] [⟨2, 1⟩]) hwlSched).rsock = false := by decide
+
+end HandoverStreamProps
 
 /-! ## hot upgrade: the hand-shake never leaves a listener without an acceptor -/
 section UpgHandshakeProps
